@@ -188,6 +188,10 @@ def unify(pat, con, vars_, b):
     elif pat[0] == 'array':
         pass
     if len(pat[2]) != len(con[2]):
+        # a path printed with fewer arguments than the pattern omits trailing *defaulted* parameters (Serializer<W> is
+        # Serializer<W, CompactFormatter>): the missing ones stay unbound when they are plain generic names of the pattern
+        if pat[0] == 'path' and len(con[2]) < len(pat[2]) and all(p[0] == 'path' and not p[2] and p[1] in vars_ for p in pat[2][len(con[2]):]):
+            return all(unify(p, c, vars_, b) for p, c in zip(pat[2], con[2]))
         return False
     return all(unify(p, c, vars_, b) for p, c in zip(pat[2], con[2]))
 
